@@ -288,8 +288,21 @@ func execOp(h *WHub, op Op) error {
 				if err != nil {
 					return fmt.Errorf("WRITE-AFTER-REJECTED-BATCH storing the unchanged latest version of %s in %s failed: %w", cur[0].ID, op.DS, err)
 				}
-			case <-time.After(20 * time.Second):
-				return fmt.Errorf("WRITER-BLOCKED after a batch whose last element %s was refused, a write to %s did not return within 20s: the refused batch left a lock behind, every later writer hangs", why, op.DS)
+			case <-time.After(gmBlockedWait()):
+				// slow machine or a lock left behind? a lock left behind never comes back
+				if !gmBlockedConfirmed {
+					select {
+					case err := <-done:
+						if err != nil {
+							return fmt.Errorf("WRITE-AFTER-REJECTED-BATCH storing the unchanged latest version of %s in %s failed: %w", cur[0].ID, op.DS, err)
+						}
+						kit.S().Inconcl()
+						return nil
+					case <-time.After(120 * time.Second):
+					}
+				}
+				gmBlockedConfirmed = true
+				return fmt.Errorf("WRITER-BLOCKED after a batch whose last element %s was refused, a write to %s did not return (waited minutes): the refused batch left a lock behind, every later writer hangs", why, op.DS)
 			}
 		}
 	case "token":
@@ -1199,4 +1212,15 @@ func gmInStack(suffix string) bool {
 			return false
 		}
 	}
+}
+
+// gmBlockedConfirmed: a write after a refused batch was once seen to hang for good in this process;
+// the shrinker's re-runs of the same history need not wait minutes again.
+var gmBlockedConfirmed bool
+
+func gmBlockedWait() time.Duration {
+	if gmBlockedConfirmed {
+		return 5 * time.Second
+	}
+	return 45 * time.Second
 }
